@@ -114,7 +114,7 @@ func (cs *CommandStatement) rearrange() {
 }
 
 func (cs *CommandStatement) split(str string) []*CommandStatementElement {
-	split := strings.Split(str, " ")
+	split := strings.Fields(str) // words are separated by any run of whitespace (spaces or tabs)
 	elements := make([]*CommandStatementElement, 0, len(split))
 	for _, word := range split {
 		if word == "" {
